@@ -112,7 +112,12 @@ func c19XOFMachine(t *rapid.T, ev *evProp, impl xofImpl) {
 	history := []string{fmt.Sprintf("%s.New(seed %d bytes %x)", impl.name, seedLen, seed)}
 	nsteps := rapid.IntRange(1, 30).Draw(t, "nsteps")
 	chunk := func(l string) int {
-		return rapid.SampledFrom([]int{0, 1, 2, 31, 32, 33, 63, 64, 65, 127, 128, 129, 135, 136, 137, 200, 256, 600, -1}).Draw(t, l)
+		n := rapid.SampledFrom([]int{0, 1, 2, 31, 32, 33, 63, 64, 65, 127, 128, 129, 135, 136, 137, 200, 256, 600, -1, -2}).Draw(t, l)
+		if n == -2 {
+			// one call that is longer than any internal block or scratch buffer: 2^k + j, k in 9..13
+			n = 1<<uint(rapid.IntRange(9, 13).Draw(t, l+".k")) + rapid.SampledFrom([]int{-1, 0, 1, 7, 100}).Draw(t, l+".j")
+		}
+		return n
 	}
 	var labels []string
 	nontrivial := false
@@ -607,7 +612,7 @@ func TestC19_IntBias(t *testing.T) {
 }
 
 const c19Rule = "three families. (XOF state machine) implementation in {blake2xb, blake2xs, keccak}, seed length from {0,1,16,31..33,63..65,100,127..129,200,300,any 0..300}, 1..30 steps over a growing set of instances from " +
-	"{Write(n), Read(n), XORKeyStream(n, separate buffers / in place / in place inside a larger buffer), Reseed, Clone, Reset (factory-made instances only)}, chunk sizes from {0,1,2,31..33,63..65,127..129,135..137,200,256,600,any}; Write is only generated while nothing was read in the current epoch (documented panic otherwise); " +
+	"{Write(n), Read(n), XORKeyStream(n, separate buffers / in place / in place inside a larger buffer), Reseed, Clone, Reset (factory-made instances only)}, chunk sizes from {0,1,2,31..33,63..65,127..129,135..137,200,256,600, 2^k+j for k in 9..13, any}; Write is only generated while nothing was read in the current epoch (documented panic otherwise); " +
 	"every output is compared with a single-shot reference computed from scratch on golang.org/x/crypto (seed, all absorbed data, one Read of offset+n bytes); Reseed = new instance keyed with the next 128 output bytes; Reset = back to New(seed). " +
 	"(random.New) 1..4 readers full/short/failing with at least one delivering 32 bytes: no panic, deterministic, unaffected by unread bytes, changed by any flipped consumed byte. (random.Bits/Int) bit lengths 0..1030, moduli of 1..521 bits incl. 1, 2, 2^k, 2^k±1, adversarial streams: range, exact bit length, function of consumed bytes; bias decided exhaustively over all 1-/2-byte prefixes. " +
 	"non-trivial = a machine run containing Reseed/Clone/Reset or a read straddling a 64-byte block boundary; several or partly failing readers; non-byte-aligned or exact Bits; non-power-of-two modulus; distinct = distinct rendered case" +
